@@ -92,8 +92,12 @@ class Def:
         need_zerr = errcb or any(l.cb in (4, 6, 8, 10, 13, 15, 18, 19) for l in leaves)
         self.zerr = need_zerr if zerr is None else (zerr or need_zerr)
         self.name = name
+        self.assign_variants()
+
+    def assign_variants(self):
+        """(re)name the variants; must be called again after leaves have been added"""
         nu = nv = ns = 0
-        for l in leaves:
+        for l in self.leaves:
             if l.kind == 'skip':
                 l.variant = '_'
             elif l.value and not l.cb:
@@ -217,6 +221,7 @@ def with_look(R, d):
     """put a look-around assertion at the end of one regex leaf, or between a leaf and a short tail"""
     c = [l for l in d.leaves if l.kind == 'regex' and not getattr(l, 'is_bytes', False)]
     if not c:
+        d.assign_variants()
         return d
     l = R.choice(c)
     if R.random() < 0.3:
@@ -225,6 +230,7 @@ def with_look(R, d):
         sh = Leaf('regex', '(?:' + l.pat + ')' + R.choice(LOOKS_END), prio=R.choice([90, 90, 0]))
         sh.look = True
         d.leaves.append(sh)
+        d.assign_variants()
         return d
     if R.random() < 0.25:
         # the assertion needs the next byte, and another pattern continues through that byte: the state entered by
@@ -235,6 +241,7 @@ def with_look(R, d):
         d.leaves.append(Leaf('regex', '(?:' + base + ')' + R.choice([' !', '\\n\\n', '-[a-z]+', '\\r\\n;', '[ -/]{2}', 'x_', '\\n[a-z]'])))
         if R.random() < 0.5:
             d.leaves.append(Leaf(R.choice(['regex', 'skip']), R.choice(['[ \\n]', ' ', '\\r?\\n'])))
+        d.assign_variants()
         return d
     if R.random() < 0.5:
         l.pat = '(?:' + l.pat + ')' + R.choice(LOOKS_END)
@@ -244,6 +251,7 @@ def with_look(R, d):
     if R.random() < 0.3:
         # a second leaf competing around line ends / word ends
         d.leaves.append(Leaf('regex', R.choice(['\\r?\\n', '[a-z0-9_]+', '[ -~]', '\\r'])))
+    d.assign_variants()
     return d
 
 
